@@ -37,8 +37,10 @@ def check(env, rep, tier):
                sample={"rule": "C12.1", "fields": ftys})
         rep.ob("C12.1", "map-key", bool(maps) and maps[0].startswith("lru_time_cache::LruCache<block_handler::RequestCacheKey<Endpoint>, block_handler::BlockState>"),
                "the state map is not keyed by RequestCacheKey<Endpoint> with BlockState values: %s" % maps)
-        muts = [s for s in prog.facts.get("statics", []) if s.get("mut")]
-        rep.ob("C12.1", "no-static-mut", not muts, "the crate has mutable statics: %s" % muts)
+        muts = [s for s in prog.facts.get("statics", []) if s.get("mut") or s.get("freeze") is False]
+        rep.ob("C12.1", "no-static-mut", not muts,
+               "the crate has statics that can change at run time (static mut, or a static with interior mutability): %s - state shared "
+               "by all transfers outside the keyed map" % [(m.get("id"), m.get("ty_s")) for m in muts])
         for path in ("block_handler::BlockHandler", "block_handler::BlockState", "block_handler::RequestCacheKey", "block_handler::BlockHandlerConfig"):
             a = prog.adts.get(path)
             if a is None:
